@@ -220,6 +220,9 @@ class QasmOutput:
                 QASM depending on version.
         """
         self.operations = tuple(ops.flatten_to_ops(operations))
+        non_qubits = [q for q in qubits if q.dimension != 2]
+        if non_qubits:
+            raise ValueError(f'QASM output supports only qubits, but got qudits: {non_qubits!r}')
         self.qubits = qubits
         self.header = header
         self.measurements = tuple(self._find_measurements())
